@@ -280,6 +280,23 @@ def hFai (j : Json) : D Json := do
   let rows := (decIdx j).toOption.getD []
   pure (Json.mkObj [("load", encR (jarr encInfo) (loadIndex lines)), ("rows", jarr (fun e => jstr (faiRow e)) rows)])
 
+/-- cold start followed by a warm start, composed in the model: `index_fasta_file`, then the `.fai` rows and the `.agp` text
+    that `write_index` / `write_assembly` write, read back by `load_index` / `parse_agp` (C15/C17: warm = cold) -/
+def hWarm (j : Json) : D Json := do
+  let file ← getNL j "file"
+  let bs ← getI j "bs"
+  let path ← getS j "path"
+  let r : R (IdxState × List (Str × FastaInfo) × Assembly) := do
+    let st ← indexFasta (bLines file) bs
+    let widx ← loadIndex (st.idx.map faiRow)
+    let hdr := "Built from FASTA file '".toList ++ path ++ ['\'']
+    let lines ← formatAgp { header := [hdr], scaffolds := st.scaffolds }
+    let wasm ← parseAgp (pyLines lines.flatten)
+    pure (st, widx, wasm)
+  pure (encR (fun (x : IdxState × List (Str × FastaInfo) × Assembly) =>
+    Json.mkObj [("cold_index", jarr encInfo x.1.idx), ("cold_scaffolds", jarr encScaffold x.1.scaffolds),
+      ("warm_index", jarr encInfo x.2.1), ("warm_scaffolds", jarr encScaffold x.2.2.scaffolds), ("warm_header", jarr jstr x.2.2.header)]) r)
+
 def encFileV (f : Cache.FileV) : Json := Json.arr #[jnat f.src, jnat f.written, jnat f.total, jnat f.mtime]
 
 def encPC : Cache.PC → Json
@@ -354,6 +371,7 @@ def dispatch (j : Json) : D Json := do
   | "namer" => hNamer j
   | "name_assemblies" => hNameAssemblies j
   | "fai" => hFai j
+  | "warm" => hWarm j
   | "cache" => hCache j
   | "outputs" => hOutputs j
   | k => throw s!"unknown kind {k}"
